@@ -3,8 +3,8 @@
    UnmarshalFromMsg pairs, ProxyBaseConfig.Complete and the type registry are regenerated from
    pkg/config/v1/*.go and pkg/msg/msg.go on every run (gen/GenCfgMsg.v, translator unit T3), so
    every theorem below is re-checked against what the code says today. *)
-From FRP Require Import Model.Literals Model.CfgMsg Model.Validate
-  Proofs.CfgMsgProofs gen.GenCfgMsg.
+From FRP Require Import Model.Literals Model.CfgMsg Model.CfgWire Model.Validate
+  Proofs.CfgMsgProofs Proofs.ValidateProofs Proofs.LiteralsProofs gen.GenMsg gen.GenCfgMsg.
 Open Scope Z_scope.
 
 (* ---- the registration message loses nothing the server acts on ---- *)
@@ -76,6 +76,86 @@ Theorem C18_no_acted_field_dropped :
     cm_is_opaque_code code = false /\ cm_is_struct_code code = None.
 Proof. exact (fields_covered_sound (eq_refl true <: cm_fields_covered = true)). Qed.
 Print Assumptions C18_no_acted_field_dropped.
+
+(* Reflective: the record the model calls NewProxy has exactly the fields of the wire schema that
+   T1 extracts from msg.go (so C17's codec round trip applies to the message C18 reasons about) *)
+Theorem C18_newproxy_is_wire_schema : newproxy_matches_schema cfg_structs structs = true.
+Proof. vm_compute. reflexivity. Qed.
+Print Assumptions C18_newproxy_is_wire_schema.
+
+(* ---- validation ---- *)
+
+Theorem C18_validate_port_range : forall p, val_port p = true <-> 0 <= p <= 65535.
+Proof. exact val_port_range. Qed.
+Print Assumptions C18_validate_port_range.
+
+(* a proxy accepted by client-side validation that forwards to a local port (no plugin) has that
+   port in 0..65535 *)
+Theorem C18_validated_ports_in_range : forall ann_ok plugin_ok pc,
+  val_proxy_client ann_ok plugin_ok pc = VOk ->
+  TypedClientPluginOptions_Type (ProxyBackend_Plugin (ProxyBaseConfig_ProxyBackend (cfg_base pc))) = [] ->
+  0 <= ProxyBackend_LocalPort (ProxyBaseConfig_ProxyBackend (cfg_base pc)) <= 65535.
+Proof. exact validated_ports_in_range. Qed.
+Print Assumptions C18_validated_ports_in_range.
+
+Theorem C18_validated_enums_allowed : forall ann_ok plugin_ok pc,
+  val_proxy_client ann_ok plugin_ok pc = VOk ->
+  let b := cfg_base pc in
+  ProxyBaseConfig_Name b <> [] /\
+  In (ProxyTransport_ProxyProtocolVersion (ProxyBaseConfig_Transport b)) [[]; v_v1; v_v2] /\
+  In (ProxyTransport_BandwidthLimitMode (ProxyBaseConfig_Transport b)) [v_client; v_server] /\
+  In (HealthCheckConfig_Type (ProxyBaseConfig_HealthCheck b)) [[]; v_tcp; v_http] /\
+  (forall c, pc = Cfg_TCPMuxProxyConfig c -> TCPMuxProxyConfig_Multiplexer c = v_httpconnect).
+Proof. exact validated_enums_allowed. Qed.
+Print Assumptions C18_validated_enums_allowed.
+
+(* Whatever the letter case (ASCII), a registration the server accepts has no custom domain of the
+   form  <anything>.<subDomainHost>.  This is what validateDomainConfigForServer guarantees: its
+   label-count guard lets through only domains with at most as many labels as the host, and a
+   domain under the host has strictly more.  (The host itself, and names that merely contain the
+   host text with fewer or equal labels, are not "under" it and are accepted.) *)
+Theorem C18_validated_domain_outside_subdomain_host : forall fb ann_ok m s m' pc d x,
+  val_from_msg fb ann_ok m s = (m', FMOk pc) ->
+  sc_subdomain_host s <> [] ->
+  In d (cfg_custom_domains pc) ->
+  lower d <> lower (x ++ [lit_dot] ++ sc_subdomain_host s).
+Proof. exact validated_domain_outside_subdomain_host. Qed.
+Print Assumptions C18_validated_domain_outside_subdomain_host.
+
+(* ---- literals ---- *)
+
+Theorem C18_itoa_parse_roundtrip : forall n, lit_int64_min <= n <= lit_int64_max ->
+  lit_parse_int64 (lit_itoa n) = Some n.
+Proof. exact itoa_parse_roundtrip. Qed.
+Print Assumptions C18_itoa_parse_roundtrip.
+
+(* PortsRangeSlice: String then NewPortsRangeSliceFromString gives the slice back, for every
+   non-empty slice of well-formed entries (a single port > 0, or a range 0 <= start <= end) *)
+Theorem C18_ports_range_roundtrip : forall p,
+  p <> [] -> Forall ports_range_wf p -> ports_parse (ports_string p) = Some p.
+Proof. exact ports_range_roundtrip. Qed.
+Print Assumptions C18_ports_range_roundtrip.
+
+(* ParseRangeNumbers expands the rendered list to exactly the enumerated numbers *)
+Theorem C18_range_numbers_expand : forall items,
+  items <> [] -> Forall range_item_wf items ->
+  parse_range_numbers (render_items items) = RNOk (flat_map item_numbers items).
+Proof. exact range_numbers_expand. Qed.
+Print Assumptions C18_range_numbers_expand.
+
+(* what a range expands to: exactly lo, lo+1, ..., hi, in order *)
+Theorem C18_zrange_spec : forall lo hi, lo <= hi ->
+  length (zrange lo hi) = Z.to_nat (hi - lo + 1) /\
+  forall k, (k < Z.to_nat (hi - lo + 1))%nat -> nth_error (zrange lo hi) k = Some (lo + Z.of_nat k).
+Proof. exact zrange_spec. Qed.
+Print Assumptions C18_zrange_spec.
+
+Theorem C18_number_pairs_aligned : forall a b l,
+  number_range_pairs a b = PairsOk l ->
+  exists xs ys, parse_range_numbers a = RNOk xs /\ parse_range_numbers b = RNOk ys /\
+                length xs = length ys /\ l = combine xs ys /\ map fst l = xs /\ map snd l = ys.
+Proof. exact number_pairs_aligned. Qed.
+Print Assumptions C18_number_pairs_aligned.
 
 (* BandwidthQuantity: String() is the trimmed literal and parsing it again gives the same
    quantity, for ANY behaviour of strconv.ParseFloat / float arithmetic *)
